@@ -175,7 +175,7 @@ def run(tier, seed, replay=None):
                 V.fail("a rank exceeds rmax after round [%s]" % fam, dict(desc, Ry=Ry))
             binding = rm is not None and any(Ry[k] == rm[k] for k in range(1, d))
             nrm = float(np.linalg.norm(full_x.astype(np.complex128))); err = float(np.linalg.norm((full_x - full_y).astype(np.complex128)))
-            if not binding and err > eps * nrm * (1 + 1e-9) + (3e-5 if f32 else 1e-11) * nrm:
+            if not binding and not (err <= eps * nrm * (1 + 1e-9) + (3e-5 if f32 else 1e-11) * nrm):
                 V.fail("accuracy: ||x - round(x)|| > eps ||x|| [%s]" % fam, dict(desc, Ry=Ry, err=err, bound=eps * nrm, rel=err / max(nrm, 1e-300)))
             if eps >= 1e-9 and not f32 and d > 1 and fam in ("inflated", "deficient", "zero", "random", "budget"):
                 W = full_x
@@ -191,7 +191,7 @@ def run(tier, seed, replay=None):
             if d > 1 and len(rec) == d - 1:
                 disc = sum(float(np.sum(np.abs(s_[Ry[d - 1 - b]:].astype(np.float64)) ** 2)) for b, (s_, _, _) in enumerate(rec))
                 n_identity += 1
-                if abs(err * err - disc) > (1e-4 if f32 else 1e-9) * nrm * nrm + 1e-300:
+                if not (abs(err * err - disc) <= (1e-4 if f32 else 1e-9) * nrm * nrm + 1e-300):
                     V.fail("squared rounding error differs from the sum of the discarded energies [%s]" % fam, dict(desc, err2=err * err, discarded=disc, Ry=Ry))
             # decisions
             ns = [int(m) * int(n_) for m, n_ in zip(x.M, x.N)] if is_ttm else [int(v) for v in x.N]
@@ -208,9 +208,9 @@ def run(tier, seed, replay=None):
             for (s, eps_arg, r) in rec:
                 nrm_s = float(np.linalg.norm(s.astype(np.float64)))
                 want = eps / math.sqrt(d - 1) * nrm_s
-                if abs(eps_arg - want) > 1e-6 * want + 1e-300:
+                if not (abs(eps_arg - want) <= 1e-6 * want + 1e-300):
                     V.fail("threshold passed to rank_chop is not eps/sqrt(d-1)*||S|| [%s]" % fam, dict(desc, eps_arg=eps_arg, expected=want))
-                if abs(nrm_s - nrm) > (1e-3 if f32 else 1e-8) * max(nrm, 1e-300) + 1e-300 and s is rec[0][0]:
+                if not (abs(nrm_s - nrm) <= (1e-3 if f32 else 1e-8) * max(nrm, 1e-300) + 1e-300) and s is rec[0][0]:
                     V.fail("the first spectrum does not carry the norm of x (orthogonalisation missing?) [%s]" % fam, dict(desc, norm_s=nrm_s, norm_x=nrm))
                 q, thr2, margin = exact_scaled(s, eps_arg)
                 if margin < tol: n_tie += 1; continue
@@ -248,8 +248,8 @@ def run(tier, seed, replay=None):
             e2 = abs(float(y_.full().abs().pow(2).sum().sqrt()) - float(cores_[k_].abs().pow(2).sum().sqrt()))
             e3_ = float((y_.full() - x_.full()).abs().pow(2).sum().sqrt())
             n_gauge += 1
-            if e3_ > 1e-10 * max(nx, 1e-300): V.fail("gauge: lr_orthogonal / rl_orthogonal changed the tensor", {"N": N_, "centre": k_, "rel": e3_ / max(nx, 1e-300)})
-            if e1 > 1e-10 * max(1.0, nx) or e2 > 1e-10 * max(1.0, nx):
+            if not (e3_ <= 1e-10 * max(nx, 1e-300)): V.fail("gauge: lr_orthogonal / rl_orthogonal changed the tensor", {"N": N_, "centre": k_, "rel": e3_ / max(nx, 1e-300)})
+            if not (e1 <= 1e-10 * max(1.0, nx)) or not (e2 <= 1e-10 * max(1.0, nx)):
                 V.fail("gauge: in the mixed gauge of lr_orthogonal / rl_orthogonal the centre core does not carry the norm / a perturbation of it is not an isometry", {"N": N_, "centre": k_, "perturbation_defect": e1, "norm_defect": e2})
         except Exception as ex:
             V.fail("gauge measurement raises %s" % type(ex).__name__, {"N": N_, "exc": str(ex)[:200]})
